@@ -899,12 +899,30 @@ def run_one(ctx, rng, stream, case, ci, reqs, infos):
         # vector of a cell (1/M without weights). Which cell is settled by the model comparison of seeded cases.
         exp = expected_ps(case["weights"], case["M"])
         if exp is not None:
-            for S_, p_, _ in rec.calls:
-                if not any(len(e) == len(p_) and all(abs(Fraction(a) - b) <= TOL for a, b in zip(p_, e)) for e in exp):
-                    ctx.fail("mixture: np.random.choice was called with probabilities that are not the weights of any cell",
-                             shown, {"p": p_, "size": S_})
-                    break
-            ctx.count("checked/choice-p-is-weights")
+            same = lambda p_, e: len(e) == len(p_) and all(abs(Fraction(a) - b) <= TOL for a, b in zip(p_, e))  # noqa: E731
+            # POSITIONAL: blend walks the cells of the first triangle in order and draws once per non-scalar field of
+            # the cell, so the k-th recorded call belongs to a known cell and must carry THAT cell's weight vector
+            cells0 = tris[0].cells
+            want = []
+            for i, c in enumerate(cells0):
+                e = exp[i] if len(exp) == len(cells0) and len(exp) > 1 else exp[0]
+                want += [(i, e)] * sum(1 for v in c.values.values() if not np.isscalar(v))
+            if len(want) == len(rec.calls):
+                for (i, e), (S_, p_, _) in zip(want, rec.calls):
+                    if not same(p_, e):
+                        ctx.fail("mixture: np.random.choice was called with probabilities that are not the weights of "
+                                 "the cell being blended", shown, {"cell": i, "p": p_, "weights_of_cell": [str(x) for x in e],
+                                                                   "size": S_})
+                        break
+                ctx.count("checked/choice-p-is-weights-of-the-cell")
+            else:
+                # another number of draws than one per non-scalar field: fall back to "weights of some cell"
+                ctx.count("checked/choice-p-count-differs")
+                for S_, p_, _ in rec.calls:
+                    if not any(same(p_, e) for e in exp):
+                        ctx.fail("mixture: np.random.choice was called with probabilities that are not the weights of "
+                                 "any cell", shown, {"p": p_, "size": S_})
+                        break
     if not rec.inputs_untouched:
         ctx.fail("blend changed the derived accessors (num_samples / fields / slices / periods) of an INPUT", shown)
     if res[0] == "ok":
@@ -983,7 +1001,7 @@ def correspondence(ctx):
 if __name__ == "__main__":
     common.run_check(
         "C16", module="Bermuda.Properties.C16", driver_targets=["drv_c16"],
-        correspondence=correspondence, level="translation_validation",
+        correspondence=correspondence, level="proof",
         rule="1-4 coordinate-identical triangles on a random skeleton (1-3 slices, regular/ragged/day-level, Cell/"
              "CumulativeCell/IncrementalCell, shuffled input order); fields scalar int/float, int/float sample arrays "
              "(length 1-8), mixed per triangle (linear); weights None / list / dict of scalars, lists, 1-D, 2-D arrays, "
@@ -1011,8 +1029,9 @@ if __name__ == "__main__":
             "OUTSIDE THE MODEL: numpy's legacy RNG (np.random.seed/choice). The drawn index vectors are recorded "
             "in-process and handed to the model as a parameter; 'the choice follows the weights' is statistical and "
             "is NOT checked except for degenerate weights e_j (output must be input j exactly) and at the RNG "
-            "interface: every recorded np.random.choice call of a successful mixture blend must carry p = the weight "
-            "vector of some cell (1/M without weights), within 2^-40",
+            "interface: the k-th recorded np.random.choice call of a successful mixture blend (one per non-scalar field, "
+            "cells of the first triangle in order) must carry p = the weight vector of THE cell being blended (1/M "
+            "without weights), within 2^-40",
             "seed reproducibility is observed by calling twice, not proved",
             "values are None, Python int/float or 1-D arrays; integers below 2^12 and dyadic rationals with 3 "
             "fractional bits, dyadic weights with <= 4 bits: float64 arithmetic of the matrix product is exact and is "
